@@ -188,10 +188,10 @@ type Property struct {
 	Assume    []string
 	Plan      func(tier string) []Plan // one or more phases
 	Run       func(w *W, phase int, idx int)
-	Init      func(w *W, phase int) // optional per-worker init
-	Fini      func(w *W, phase int) // optional per-worker end (quiescent checks)
-	Post      func(d *Driver)       // optional parent-side post-processing (e.g. race logs)
-	MinEvents map[string]int64      // stats that must reach a minimum or the run is NO-EVIDENCE
+	Init      func(w *W, phase int)           // optional per-worker init
+	Fini      func(w *W, phase int)           // optional per-worker end (quiescent checks)
+	Post      func(d *Driver)                 // optional parent-side post-processing (e.g. race logs)
+	MinEvents map[string]int64                // stats that must reach a minimum or the run is NO-EVIDENCE
 	Replay    func(w *W, raw json.RawMessage) // re-execute one case from a replay file
 }
 
